@@ -509,6 +509,21 @@ def _sequence_merges_in_order(fn) -> bool:
     return False
 
 
+REORDERING = {'sorted', 'reversed', 'set', 'frozenset', 'shuffle', 'sample', 'dict', 'Counter'}
+
+
+def _order_preserving(e: ast.expr) -> bool:
+    """enumerate()/list()/tuple()/forward slices of the option list keep its order; anything else is refused."""
+    for n in ast.walk(e):
+        if isinstance(n, ast.Call):
+            nm = dotted(n.func).split('.')[-1]
+            if nm in REORDERING:
+                return False
+        if isinstance(n, ast.Slice) and n.step is not None:
+            return False
+    return True
+
+
 def r3_ordered_choice(a, tier):
     rep = RuleReport(
         'C01.R3',
@@ -521,11 +536,27 @@ def r3_ordered_choice(a, tier):
                     ('tatsu.contexts.ctxlib.choice.ChoiceContext.parse', 'self.options')):
         fn = a.p.func(q)
         loops = [n for n in walk_no_defs(fn.node) if isinstance(n, ast.For)]
-        ok = any(norm(lp.iter) == attr for lp in loops)
-        rep.add({'fn': q, 'iterates': [norm(lp.iter) for lp in loops], 'ok': ok})
+        derived = {attr}
+        changed = True
+        exprs: list[ast.expr] = []
+        while changed:
+            changed = False
+            for n in walk_no_defs(fn.node):
+                if isinstance(n, ast.Assign) and any(d in norm(n.value).replace('(', ' ').replace(')', ' ').replace(',', ' ').replace('[', ' ').replace(']', ' ').replace('*', ' ').split()
+                                                      for d in derived):
+                    for t in n.targets:
+                        for x in ast.walk(t):
+                            if isinstance(x, ast.Name) and x.id not in derived:
+                                derived.add(x.id)
+                                changed = True
+                    if n.value not in exprs:
+                        exprs.append(n.value)
+        srcs = [lp.iter for lp in loops if any(d in [norm(x) for x in ast.walk(lp.iter) if isinstance(x, (ast.Name, ast.Attribute))] for d in derived)]
+        ok = bool(srcs) and all(_order_preserving(s_) for s_ in [*srcs, *exprs])
+        rep.add({'fn': q, 'iterates': [norm(lp.iter) for lp in loops], 'derived_from_options': sorted(derived), 'ok': ok})
         if not ok:
-            rep.fail(q, 'choice-order', f'the option loop does not iterate `{attr}` directly: options may be tried in '
-                     f'another order than written', fn.loc)
+            rep.fail(q, 'choice-order', f'the option loop does not iterate `{attr}` in its own order '
+                     f'(found {[norm(lp.iter) for lp in loops]}): options may be tried in another order than written', fn.loc)
     fn = a.p.func('tatsu.peg.choice.Choice._parse')
     lp = next((n for n in walk_no_defs(fn.node) if isinstance(n, ast.For)), None)
     ok = lp is not None and any(isinstance(n, ast.Return) and n.value is not None for n in ast.walk(lp))
